@@ -116,6 +116,7 @@ def execute(prop, profile: str, source: Source, *, keep_log: bool = False, known
             "trace": list(source.trace),
             "known_seen": dict(sim.known_seen),
             "outcome": sim.outcome,
+            "extra": sim.extra,
         }
         if keep_log:
             res["log"] = sim.log
@@ -152,8 +153,13 @@ def _chunk(pid: str, profile: str, base_seed: int, start: int, count: int, want_
         "determinism": [],
     }
 
+    mode = {"recheck": False, "digs": []}
+
     def run(source: Source, sample: bool = False):
-        res = execute(prop, profile, source, keep_log=sample, known=known)
+        res = execute(prop, profile, source, keep_log=sample and not mode["recheck"], known=known)
+        mode["digs"].append(res["digest"])
+        if mode["recheck"]:
+            return res
         agg["evaluations"] += 1
         agg["vtime"] += res["vtime"]
         agg["boundaries"] += res["boundaries"]
@@ -187,18 +193,25 @@ def _chunk(pid: str, profile: str, base_seed: int, start: int, count: int, want_
         seed = derive_seed(base_seed, pid, profile, i)
         agg["seeds"] += 1
         sample = len(agg["samples"]) < want_samples
+        mode["digs"] = []
         if hasattr(prop, "expand"):
             first = prop.expand(seed, profile, run, sample)
         else:
             first = run(Source(seed), sample)
+        digs_first = mode["digs"]
         if sample and first is not None and first.get("program") is not None:
             agg["samples"].append({"seed": seed, "profile": profile, "program": first["program"],
                                    "schedule_len": len(first["trace"]),
                                    "events": len(first.get("log") or [])})
         # in-process determinism re-check on the first seeds of every chunk
-        if i < start + 2 and not hasattr(prop, "expand"):
-            again = execute(prop, profile, Source(seed), known=known)
-            agg["determinism"].append((seed, first["digest"], again["digest"]))
+        if i < start + 2:
+            mode["recheck"], mode["digs"] = True, []
+            if hasattr(prop, "expand"):
+                prop.expand(seed, profile, run, False)
+            else:
+                run(Source(seed), False)
+            agg["determinism"].append((seed, "".join(d[:12] for d in digs_first), "".join(d[:12] for d in mode["digs"])))
+            mode["recheck"] = False
     agg["digests"] = list(agg["digests"])
     agg["stats"] = dict(agg["stats"])
     agg["known_seen"] = dict(agg["known_seen"])
@@ -208,7 +221,7 @@ def _chunk(pid: str, profile: str, base_seed: int, start: int, count: int, want_
 # ----------------------------------------------------------------------------------------------
 # shrinking
 # ----------------------------------------------------------------------------------------------
-def shrink(prop, profile: str, trace, rule: str, known, budget_runs: int = 600, budget_s: float = 30.0):
+def shrink(prop, profile: str, trace, signature: str, known, budget_runs: int = 600, budget_s: float = 30.0):
     """Delta-debugging on the choice list while the same rule is violated."""
     t0 = _real_monotonic()
     runs = [0]
@@ -218,7 +231,7 @@ def shrink(prop, profile: str, trace, rule: str, known, budget_runs: int = 600, 
             return None
         runs[0] += 1
         res = execute(prop, profile, Source(prefix=cand), known=known)
-        if res["violation"] and res["violation"]["rule"] == rule and not res["harness"]:
+        if res["violation"] and res["violation"]["signature"] == signature and not res["harness"]:
             return res["trace"]
         return None
 
@@ -272,10 +285,10 @@ def shrink(prop, profile: str, trace, rule: str, known, budget_runs: int = 600, 
     return best, runs[0]
 
 
-def _shrink_job(pid: str, profile: str, trace, rule: str):
+def _shrink_job(pid: str, profile: str, trace, signature: str):
     prop = load_prop(pid)
     known = load_known(pid)
-    best, nruns = shrink(prop, profile, trace, rule, known)
+    best, nruns = shrink(prop, profile, trace, signature, known)
     final = execute(prop, profile, Source(prefix=best, record_labels=True), keep_log=True, known=known)
     return best, nruns, final
 
@@ -464,9 +477,8 @@ def check(pid: str, tier: str, base_seed: int, workers: int | None = None) -> in
         for sig, slot in sorted(total["violations"].items()):
             if pool_failed:
                 break
-            rule = slot["violation"]["rule"]
             try:
-                best, nruns, final = pool.submit(_shrink_job, pid, slot["profile"], slot["trace"], rule).result(timeout=180)
+                best, nruns, final = pool.submit(_shrink_job, pid, slot["profile"], slot["trace"], sig).result(timeout=180)
             except Exception as exc:  # noqa: BLE001
                 total["harness"].append({"seed": slot["seed"], "error": f"shrink failed: {exc!r}", "trace": slot["trace"]})
                 continue
